@@ -109,12 +109,56 @@ def do_recv_ll(pdus):
             out.append([CID_OF[m.destination], bytes(m.data).hex()])
     return {"out": out}
 
+def do_send_after(ops, cid, sdu):
+    """history of set_local_mtu / set_remote_mtu calls, then one SDU"""
+    ll = LL()
+    try:
+        for is_local, m in ops:
+            (ll.l2.set_local_mtu if is_local else ll.l2.set_remote_mtu)(m)
+        if cid == 6:
+            ll.l2.on_smp_packet_recv(sdu)
+        elif cid == 4:
+            ll.l2.on_att_packet_recv(sdu)
+        else:
+            ll.l2.on_att_packet_recv(sdu, channel=cid)
+    except Exception as e:  # noqa
+        return {"exc": type(e).__name__}
+    frags = [[bool(m.args.get('fragment', False)), bytes(m.data).hex()] for m in ll.messages if m.destination == 'll']
+    return {"frags": frags, "local_mtu": int(ll.l2.get_local_mtu())}
+
+def do_e2e(mtu, cid, sdus):
+    """two real LinkLayer+L2CAP stacks; the data PDU OBJECTS emitted towards phy by the
+    first are handed, as produced, to the second."""
+    pa, la = mk_phy()
+    pb, lb = mk_phy()
+    la.set_remote_mtu(mtu)
+    out, sizes = [], []
+    try:
+        for sdu in sdus:
+            pa.messages.clear()
+            if cid == 6:
+                la.on_smp_packet_recv(sdu)
+            else:
+                la.on_att_packet_recv(sdu)
+            for m in list(pa.messages):
+                if m.destination == 'phy' and m.tag == 'data':
+                    sizes.append(len(bytes(m.data.payload)))
+                    pb.send('ll', m.data, tag='data', conn_handle=42)
+    except Exception as e:  # noqa
+        return {"exc": type(e).__name__}
+    for m in pb.messages:
+        if m.source == lb.name and m.destination in CID_OF:
+            out.append([CID_OF[m.destination], bytes(m.data).hex()])
+    return {"out": out, "sizes": sizes}
+
 def main():
     req = json.load(sys.stdin)
     res = {"send": [do_send(m, c, bytes.fromhex(h)) for m, c, h in req.get("send", [])],
            "recv": [do_recv(f) for f in req.get("recv", [])],
            "send_ll": [do_send_ll(m, c, bytes.fromhex(h)) for m, c, h in req.get("send_ll", [])],
-           "recv_ll": [do_recv_ll(f) for f in req.get("recv_ll", [])]}
+           "recv_ll": [do_recv_ll(f) for f in req.get("recv_ll", [])],
+           "send_after": [do_send_after(o, c, bytes.fromhex(h)) for o, c, h in req.get("send_after", [])],
+           "e2e": [do_e2e(m, c, [bytes.fromhex(h) for h in hs]) for m, c, hs in req.get("e2e", [])]}
     print("RESULT " + json.dumps(res))
 
 main()
